@@ -41,8 +41,10 @@ def _extract_exec_command(bind_value: str) -> str | None:
         return match.group(2)
 
     # Try colon syntax: execute:cmd
+    # (the colon form takes the whole rest of the value: only accept it when
+    # the command has no blanks, otherwise it cannot be delimited here)
     match = COLON_PATTERN.search(bind_value)
-    if match:
+    if match and match.end() == len(bind_value):
         return match.group(2)
 
     return None
@@ -66,6 +68,7 @@ def classify(ctx: HandlerContext) -> Classification:
     """Classify fzf command."""
     tokens = ctx.tokens
     base = tokens[0] if tokens else "fzf"
+    inner_cmds = []
     for i, token in enumerate(tokens):
         # Check for --listen-unsafe flag
         if token == "--listen-unsafe" or token.startswith("--listen-unsafe="):
@@ -85,13 +88,20 @@ def classify(ctx: HandlerContext) -> Classification:
             if _has_exec_bind_action(bind_value):
                 # Try to extract and delegate the inner command
                 inner_cmd = _extract_exec_command(bind_value)
-                if inner_cmd:
-                    return Classification(
-                        "delegate",
-                        inner_command=inner_cmd,
-                        description=f"{base} --bind",
-                    )
-                # Couldn't extract command, ask for confirmation
+                n_actions = sum(
+                    bind_value.count(a + "(") + bind_value.count(a + ":")
+                    for a in ("execute", "execute-silent", "become")
+                )
+                if inner_cmd and n_actions == 1:
+                    inner_cmds.append(inner_cmd)
+                    continue
+                # Couldn't extract the command(s), ask for confirmation
                 return Classification("ask", description=f"{base} --bind")
 
+    if inner_cmds:
+        return Classification(
+            "delegate",
+            inner_command="; ".join(inner_cmds),
+            description=f"{base} --bind",
+        )
     return Classification("allow", description=base)
